@@ -449,6 +449,139 @@ func c11(c *core.Ctx) {
 		if n == 0 {
 			c.Fail("httpgrpc:func-results", token.NoPos, "ANCHOR-MISSING: no call of a func value returned by a package function (the per-request cancel) found")
 		}
+		// ... nor a nil func kept in an options struct: a func-typed field of a package struct that the HTTP code calls
+		// is tested non-nil where it is loaded (with a default on the other edge), or every place that creates such a
+		// struct gives the field a non-nil value on all paths
+		nF := 0
+		for _, fn := range p.LibFuncs("httpgrpc") {
+			core.InstrsDeep(fn, func(f *ssa.Function, in ssa.Instruction) {
+				if f != fn {
+					return
+				}
+				cc := core.CallOf(in)
+				if cc == nil || cc.IsInvoke() {
+					return
+				}
+				if _, isFn := cc.Value.Type().Underlying().(*types.Signature); !isFn {
+					return
+				}
+				for _, lv := range core.Origins(cc.Value) {
+					base, fld, isF := core.FieldOf(lv)
+					if !isF {
+						continue
+					}
+					tn := core.NamedOf(base.Type())
+					nt := p.Named("httpgrpc", tn)
+					if nt == nil {
+						continue
+					}
+					nF++
+					key := fmt.Sprintf("%s:call-of-field(%s.%s):non-nil", core.FuncName(fn), tn, fld)
+					nonNil := func(fc core.Fact) bool {
+						return fc.Op == token.NEQ && core.IsNilConst(fc.Y) && (fc.X == lv || core.SameVal(fc.X, lv))
+					}
+					if core.GuardedBy(in, nonNil) {
+						c.Ok(key, in.Pos(), "the field's value is used only where it was tested non-nil")
+						continue
+					}
+					// `f := x.fld; if f == nil { f = Default }`: the loaded value sits in a local cell; it survives to the
+					// use (or to the literal that captures the cell) only along the edge on which the cell was found non-nil
+					viaCell := false
+					if li, isI := lv.(ssa.Instruction); isI {
+						g := li.Parent()
+						core.Instrs(g, func(x ssa.Instruction) {
+							st, isS := x.(*ssa.Store)
+							if !isS || st.Val != lv {
+								return
+							}
+							cell, isA := st.Addr.(*ssa.Alloc)
+							if !isA {
+								return
+							}
+							// targets: the call itself (same function) or the literals capturing the cell
+							var targets []ssa.Instruction
+							if g == in.Parent() {
+								targets = append(targets, in)
+							}
+							core.Instrs(g, func(y ssa.Instruction) {
+								if mc, isMC := y.(*ssa.MakeClosure); isMC {
+									for _, bnd := range mc.Bindings {
+										if bnd == ssa.Value(cell) {
+											targets = append(targets, mc)
+										}
+									}
+								}
+							})
+							if len(targets) == 0 {
+								return
+							}
+							reach := core.Walk(core.After(st), func(y ssa.Instruction) bool {
+								s2, isS2 := y.(*ssa.Store)
+								return isS2 && s2 != st && s2.Addr == ssa.Value(cell)
+							}, func(bb *ssa.BasicBlock, si int) bool {
+								iff, isIf := bb.Instrs[len(bb.Instrs)-1].(*ssa.If)
+								if !isIf {
+									return true
+								}
+								fc := core.CondFact(iff.Cond, si == 0)
+								if fc.Op == token.NEQ && core.IsNilConst(fc.Y) {
+									if u, isU := fc.X.(*ssa.UnOp); isU && u.Op == token.MUL && u.X == ssa.Value(cell) {
+										return false
+									}
+								}
+								return true
+							})
+							ok := true
+							for _, t := range targets {
+								if reach[t] {
+									ok = false
+								}
+							}
+							if ok {
+								viaCell = true
+							}
+						})
+					}
+					if viaCell {
+						c.Ok(key, in.Pos(), "the field's value reaches the call only along the edge on which it was found non-nil (a default replaces it otherwise)")
+						continue
+					}
+					// by construction?
+					bad := ""
+					sites := 0
+					for _, g := range p.LibFuncs("httpgrpc") {
+						core.Instrs(g, func(x ssa.Instruction) {
+							al, isA := x.(*ssa.Alloc)
+							if !isA || core.NamedOf(al.Type()) != tn {
+								return
+							}
+							if pt, isP := al.Type().Underlying().(*types.Pointer); !isP || core.NamedOf(pt.Elem()) != tn {
+								return
+							}
+							sites++
+							setsField := func(y ssa.Instruction) bool {
+								st, isS := y.(*ssa.Store)
+								if !isS || core.IsNilConst(st.Val) {
+									return false
+								}
+								b2, f2, ok2 := core.FieldOf(st.Addr)
+								return ok2 && f2 == fld && core.NamedOf(b2.Type()) == tn
+							}
+							for _, r := range core.Returns(g) {
+								if core.Reachable(core.After(al), r) && !core.MustPass(core.After(al), r, setsField) {
+									bad = core.FuncName(g)
+								}
+							}
+						})
+					}
+					if bad == "" && sites > 0 {
+						c.Ok(key, in.Pos(), "every one of the %d places that create a %s stores a non-nil %s on all paths", sites, tn, fld)
+					} else {
+						c.Fail(key, in.Pos(), "the func in %s.%s is called without a nil test, and %s creates a %s without giving the field a value on every path: a request that reaches this call through that entry point panics the server goroutine", tn, fld, bad, tn)
+					}
+				}
+			})
+		}
 		c.EndRule()
 	}
 
